@@ -155,6 +155,20 @@ theorem C14_closing_fd_never_fails (w : World) (hl : Live w) (hi : Inspectable w
   unfold Inspectable at hi
   simp [expectedOpenFiles, World.vanished, hl.1, hl.2, hi]
 
+/-- **a process that exits during the scan** (it becomes a zombie at scan index `k`: every later
+    descriptor answers ENOENT, the pid is still there) does not fail the call: the answer is what
+    the descriptors read so far give — never ZombieProcess / NoSuchProcess for a pid that exists -/
+theorem C14_exits_during_scan (fds : List Fd) (fs : FS) (k : Nat) (hwf : ∀ d ∈ fds, WFFd fs d)
+    (hins : ∀ d ∈ fds, deniedFd fs d = false) :
+    openFiles cfg fs (renderWorld { fds := killFrom k fds, fs := fs, goneBefore := false, diesAt := none, zombie := true })
+      = .ok (((fds.take k).filter fun d => d.closesAt.isNone).filterMap (listed fs)) := by
+  have h := C14_closing_fd_never_fails
+    { fds := killFrom k fds, fs := fs, goneBefore := false, diesAt := none, zombie := true } ⟨rfl, rfl⟩
+    (by simp [Inspectable, World.denied, World.seen, killFrom_not_denied fs k fds hins])
+    (killFrom_wf fs k fds hwf)
+  rw [h]
+  simp only [killFrom_open]
+
 /-- **refused ⇒ AccessDenied(pid)**: when the descriptor directory may not be listed, or any
     descriptor met while the process is still there may not be inspected (EACCES / EPERM from
     its readlink, from the `os.stat` of its target, from the open of its fdinfo), the answer is
